@@ -218,7 +218,7 @@ P("C04",
        "their orientation. non-trivial = a polarised cell ends on another row than the one closest to its start, or "
        "detailed placement moved a polarised cell to another row; distinct = hash of the circuit. Exhaustive part: "
        "cellOrientationInRow / oppositeRowOrientation over 5 polarities x 10 enum values. Object histories: in a quarter of the cases every circuit of the case is not built fresh but reached on an object that was built with its fixed cells elsewhere, queried (computeRows, hpwl) and legalized, and then brought to the case's contents through setCellX/Y/Orientation or setSolution (same contents, other history). Rows are handed to the circuit in generated, reversed, rotated or shuffled order; 1 case in 32 adds a large companion instance (up to 150 movable cells). Reordering over several rows is switched on in a third of the cases.",
-  assumptions=["segments that share a y share an orientation (by construction, as Circuit::report() requires)"])
+  assumptions=["detailed.reorderingMaxNbCells <= 5: the reordering search is exponential in the window size (off by default) and a 7-cell window over 3 rows already exceeds the hang limit on the unchanged library", "segments that share a y share an orientation (by construction, as Circuit::report() requires)"])
 
 
 P("C02",
@@ -234,7 +234,7 @@ P("C02",
        "circuit (and pass count). Layer (c), exhaustive: every sequence of swap/insert operations up to depth 3 (4) from "
        "every legal initial placement of <= 3 (4) cells of width 1..2 (3) in three row configurations: canSwap/canInsert "
        "true => the operation succeeds and an independent structural predicate holds, false => it throws and changes nothing. 1 case in 32 adds a large companion instance (up to 150 movable cells) through layer (a); a third of the cases are judged again through layer (a) with the rows handed over in another order (reversed / rotated / shuffled) on a Circuit object that was placed before with its fixed cells elsewhere and then set to the same contents through its setters. Half of the movable cells carry a polarity and 30% of those a polarity that does not match their row count (NW/SE single-row cells). Degenerate companions: rows completely covered by an obstruction and multi-row cells (1 case in 16), rows cut into 17..30 segments by tap cells (1 in 16).",
-  assumptions=["runShifts is driven with maxNbCells >= 2 and runReordering with nbRows >= 1, the guards of their only caller",
+  assumptions=["detailed.reorderingMaxNbCells <= 5: the reordering search is exponential in the window size (off by default) and a 7-cell window over 3 rows already exceeds the hang limit on the unchanged library", "runShifts is driven with maxNbCells >= 2 and runReordering with nbRows >= 1, the guards of their only caller",
                "insert(c,row,pred) is driven with pred = -1 or a cell of that row"])
 
 
@@ -247,7 +247,7 @@ P("C05",
        "DetailedPlacer on the legalized circuit driven by 1..12 generated passes: value() never increases, equals hpwl() "
        "of the exported placement while no orientation changed, and equals hpwl() after construction. non-trivial = the "
        "wirelength strictly decreased at least once and a net of degree >= 3 exists; distinct = hash of the circuit. 1 case in 32 adds a large companion instance (up to 150 movable cells) through layer (a); a third of the cases are judged again through layer (a) with the rows handed over in another order (reversed / rotated / shuffled) on a Circuit object that was placed before with its fixed cells elsewhere and then set to the same contents through its setters. A fifth of the cases give some nets weight 0 or -1; one case in eight is also run translated by 2^25 in x and/or y (coordinates beyond 2^24).",
-  assumptions=["Circuit::hpwl() is the measure (C09 pins it to geometry)"])
+  assumptions=["detailed.reorderingMaxNbCells <= 5: the reordering search is exponential in the window size (off by default) and a 7-cell window over 3 rows already exceeds the hang limit on the unchanged library", "Circuit::hpwl() is the measure (C09 pins it to geometry)"])
 
 
 GLOBAL_DOMAIN = ("Global-placement domain: every row segment at least four row heights wide, at least one movable row-high cell "
@@ -384,7 +384,7 @@ P("C07",
        "Engines: libFuzzer on the tape bytes (structure-aware through the decoder) plus rapidcheck workers, on the `san` "
        "build (assertions on) and the `sannd` build (NDEBUG). non-trivial = the case reached >= 2 stages or threw, at decade "
        "or nanometre scale; distinct = hash of circuit, flow and shape. Object histories: in a quarter of the cases every circuit of the case is not built fresh but reached on an object that was built with its fixed cells elsewhere, queried (computeRows, hpwl) and legalized, and then brought to the case's contents through setCellX/Y/Orientation or setSolution (same contents, other history). Companions: 1 case in 32 a large instance (up to 250 movable cells), 1 in 32 rows completely covered by an obstruction and multi-row cells, 1 in 32 rows cut into 17..30 segments by tap cells.",
-  assumptions=["resource bounds of the harness: no positive cell height below half a row when global placement runs (bounds the bin count), maxNbSteps, reordering window <= 5 cells",
+  assumptions=["detailed.reorderingMaxNbCells <= 5: the reordering search is exponential in the window size (off by default) and a 7-cell window over 3 rows already exceeds the hang limit on the unchanged library", "resource bounds of the harness: no positive cell height below half a row when global placement runs (bounds the bin count), maxNbSteps, reordering window <= 5 cells",
                "the class of known finding c06-unanchored-far-from-origin is excluded by construction and counted"])
 
 
